@@ -342,6 +342,12 @@ func VerifyPSS(pub *PublicKey, hash crypto.Hash, digest []byte, sig []byte, opts
 	// 	...
 	// 	return boring.VerifyRSAPSS(bkey, hash, digest, sig, opts.saltLength())
 	// }
+
+	// ZCrypto - reject a missing modulus and a missing or non-positive
+	// exponent before pub.Size() and encrypt dereference them.
+	if err := checkPub(pub); err != nil {
+		return err
+	}
 	if len(sig) != pub.Size() {
 		return ErrVerification
 	}
